@@ -189,6 +189,12 @@ def run():
     cases = []
     for i in range(200 if t == "quick" else 3000):
         a = docs.random_doc(r, depth=3, width=3)
+        if i % 10 == 9:
+            # lists whose unequal elements are EMPTY containers of different kinds, empty strings, nulls, zeros
+            pool = ([], {}, "", None, 0, False, [[]], [{}], {"k": []}, {"k": {}})
+            a = [r.choice(pool) for _ in range(r.randint(2, 4))]
+            if r.random() < 0.5:
+                a = {"k": a, "n": 1}
         if i % 2 == 0:
             b, how = docs.permute_keys(a, r), "permuted"
         else:
